@@ -12,6 +12,7 @@ from ..corpus import (
     arg_or_kw,
     calls_in,
     dotted,
+    is_const,
     kwarg,
     parent,
     short,
@@ -20,31 +21,41 @@ from ..corpus import (
     unparse,
     walk_local,
 )
-from ..flow import get_cfg
+from ..flow import facts as flow_facts, get_cfg
 from ..mutant import Mutant
 from ..report import Report
 from .common import find_node, rule
 
 PROP = "C14"
 READY = True
-TECHNIQUE = "call-site rules over the AST with backwards tracing of the subtype argument through wrappers, callbacks and dataclass fields"
+TECHNIQUE = "call-site rules over the AST with backwards tracing of the subtype argument through wrappers, callbacks and dataclass fields; branch-fact (dominator) classification of every exit of the suppression matcher"
 
 META = {
     "explanation": (
         "Every MyST-typed warning emission in the package (create_warning function and renderer method, log_warning, "
         "Sphinx-logger calls with type=) is enumerated from the syntax tree and its subtype argument is traced backwards - "
-        "through the renderer wrapper, the two `warning` lambdas handed to merge_file_level and the ParseWarnings.type field "
-        "(default and every constructor call) - to a MystWarnings member that exists in the enum, or to a literal pair in the "
-        "closed non-myst set {(ref, footnote)} (R1). Warning-level emissions that bypass the catalogue are a closed, reasoned "
-        "list (R2); no catalogue member loses its last typed site (R3); only create_warning consults suppression, it tests "
-        "suppression with (type, subtype) in that order before building the node, and _is_suppressed_warning accepts exactly "
-        "bare type / type.subtype / type.* (R4); the value returned by create_warning never guards anything but the message "
-        "node itself (R5); enum members are rendered with .value and the tag format is [type.subtype] with type defaulting to "
-        "'myst' (R6)."
+        "through the renderer wrapper and other wrappers (including parameter defaults), the two `warning` lambdas handed to "
+        "merge_file_level and the ParseWarnings.type field (default and every constructor call) - to a MystWarnings member that "
+        "exists in the enum, or to a literal pair in the closed non-myst set {(ref, footnote)} (R1). Warning-level emissions that "
+        "bypass the catalogue are a closed, reasoned list (R2); no catalogue member loses its last typed site (R3). Only "
+        "create_warning consults suppression; there, every path to a node builder passes the not-suppressed edge of a test whose "
+        "arguments are the emitted tag strings (wtype with default 'myst', subtype str / enum .value) in that order, and the "
+        "suppressed branch returns None without effects; _is_suppressed_warning is decided by classifying the branch facts that "
+        "dominate each exit: the loop visits the whole suppress list, no negative (or computed) answer and no break leaves the "
+        "loop under a condition on the current entry (every entry can match), every `return True` is dominated by "
+        "`type part == type` and `part after the first dot in (None, subtype, '*')`, the two parts come from split('.', 1) "
+        "guarded by `'.' in entry` resp. from (entry, None) (R4). The value returned by create_warning is only discarded, "
+        "returned by a wrapper whose call sites are judged, or put into a node list under a presence test; nothing else is "
+        "control- or data-dependent on it (R5). The log record's type/subtype and the message node's '[type.subtype]' suffix are "
+        "built from the same two strings, and the renderer wrapper forwards each argument to the parameter of the same name (R6)."
     ),
     "not_decided": "per-document equality of the outputs under different suppress lists (needs the documents); Sphinx's own logger-side suppression filter",
-    "trusted_base": ["CPython ast", "the wrapper/callback edges listed in the evidence"],
-    "assumptions": ["Sphinx's logging filter removes a suppressed record before it is emitted (sphinx.util.logging.WarningSuppressor)"],
+    "trusted_base": ["CPython ast", "the wrapper/callback edges listed in the evidence", "mystsa.flow dominators (branch facts)"],
+    "assumptions": [
+        "Sphinx's logging filter removes a suppressed record before it is emitted (sphinx.util.logging.WarningSuppressor)",
+        "create_warning is the only caller of _is_suppressed_warning (checked, R4a) and never passes None for type/subtype, so None tests of these parameters are unobservable",
+        "names tested by a dominating branch are not reassigned between the test and the exit it guards",
+    ],
 }
 
 # Warning-level emissions that bypass create_warning; closed list, one reason each.
@@ -152,8 +163,12 @@ class Emissions:
                         if kw.arg == e.id:
                             arg = kw.value
                     if arg is None:
-                        # default value of the parameter
-                        out.append(("bad", f"{cfi.module.site(ccall)} passes no value for {e.id}"))
+                        # default value of the parameter (evaluated in the wrapper's defining scope)
+                        dflt = _param_default(owner, e.id)
+                        if dflt is not None and not is_const(dflt, None):
+                            out.extend(self.resolve(dflt, owner.parent_func or owner, depth + 1))
+                        else:
+                            out.append(("bad", f"{cfi.module.site(ccall)} passes no value for {e.id}"))
                     else:
                         out.extend(self.resolve(arg, cfi, depth + 1))
                 return out
@@ -205,6 +220,20 @@ class Emissions:
                         out.append(("bad", f"{fi.module.site(call)} ParseWarnings without type"))
         self.parse_warnings_ctor_calls = n
         return out
+
+
+def _param_default(fi: FunctionInfo, name: str) -> ast.expr | None:
+    a = getattr(fi.node, "args", None)
+    if a is None:
+        return None
+    pos = a.posonlyargs + a.args
+    for arg, d in zip(pos[len(pos) - len(a.defaults):], a.defaults):
+        if arg.arg == name:
+            return d
+    for arg, d in zip(a.kwonlyargs, a.kw_defaults):
+        if arg.arg == name:
+            return d
+    return None
 
 
 def _emissions(corpus: Corpus) -> Emissions:
@@ -311,9 +340,139 @@ def r3_no_member_loses_last_site(corpus: Corpus, rep: Report, tier: str):
             rep.violation("C14.R3", k, ci.module.site(ci.node), f"catalogue member {name} (myst.{em.members[name]}) is documented but no call site emits it with its tag any more")
 
 
+def _is_name(e: ast.AST | None, name: str) -> bool:
+    return isinstance(e, ast.Name) and e.id == name
+
+
+def _names(e: ast.AST) -> set[str]:
+    return {n.id for n in ast.walk(e) if isinstance(n, ast.Name)}
+
+
+def _strip_not(e: ast.expr) -> tuple[ast.expr, bool]:
+    flip = False
+    while isinstance(e, ast.UnaryOp) and isinstance(e.op, ast.Not):
+        e, flip = e.operand, not flip
+    return e, flip
+
+
+class _TagRoles:
+    """create_warning: single-assignment locals and the classifiers of the two tag strings.
+
+    Roles are taken from the public parameter names of create_warning (``subtype``, ``wtype``, ``message`` are
+    keyword names used by the call sites, i.e. API, not local spelling); locals are followed by definition."""
+
+    OK, BAD, UNKNOWN = "ok", "bad", "unknown"
+
+    def __init__(self, cw: FunctionInfo):
+        self.cw = cw
+        self.counts: dict[str, int] = {}
+        self.defs: dict[str, ast.expr] = {}
+        for n in cw.local_nodes():
+            if isinstance(n, ast.Name) and isinstance(n.ctx, ast.Store):
+                self.counts[n.id] = self.counts.get(n.id, 0) + 1
+            if isinstance(n, ast.Assign) and len(n.targets) == 1 and isinstance(n.targets[0], ast.Name):
+                self.defs[n.targets[0].id] = n.value
+            elif isinstance(n, ast.AnnAssign) and isinstance(n.target, ast.Name) and n.value is not None:
+                self.defs[n.target.id] = n.value
+
+    def deref(self, e: ast.expr | None) -> ast.expr | None:
+        for _ in range(10):
+            if isinstance(e, ast.Name) and e.id not in self.cw.params and self.counts.get(e.id) == 1 and e.id in self.defs:
+                e = self.defs[e.id]
+            else:
+                break
+        return e
+
+    def same(self, a: ast.expr | None, b: ast.expr | None) -> bool:
+        a, b = self.deref(a), self.deref(b)
+        return a is not None and b is not None and unparse(a) == unparse(b)
+
+    def param_default(self, name: str) -> ast.expr | None:
+        return _param_default(self.cw, name)
+
+    def classify_sub(self, e: ast.expr | None) -> tuple[str, str]:
+        """Is ``e`` the catalogue string of the ``subtype`` argument (str kept, enum member -> .value)?"""
+        e = self.deref(e)
+        if e is None:
+            return self.UNKNOWN, "no subtype expression"
+        if _is_name(e, "subtype"):
+            return self.BAD, "the raw `subtype` argument is used (an enum object for catalogue members), not its catalogue string"
+        if isinstance(e, ast.Call) and dotted(e.func) == "getattr" and len(e.args) == 3 and _is_name(e.args[0], "subtype") and _is_name(e.args[2], "subtype") and isinstance(e.args[1], ast.Constant):
+            if e.args[1].value == "value":
+                return self.OK, ""
+            return self.BAD, f"enum members are rendered with .{e.args[1].value}, not .value: tags are no longer the catalogue values"
+        if isinstance(e, ast.IfExp):
+            test, flip = _strip_not(e.test)
+            if isinstance(test, ast.Call) and dotted(test.func) == "isinstance" and len(test.args) == 2 and _is_name(test.args[0], "subtype"):
+                cls = (dotted(test.args[1]) or "").split(".")[-1]
+                if cls == "str":
+                    str_when_true = True
+                elif cls in ("MystWarnings", "Enum"):
+                    str_when_true = False
+                else:
+                    return self.UNKNOWN, f"isinstance test against {unparse(test.args[1])}"
+                if flip:
+                    str_when_true = not str_when_true
+                s_br, e_br = (e.body, e.orelse) if str_when_true else (e.orelse, e.body)
+                if isinstance(s_br, ast.Attribute) and _is_name(s_br.value, "subtype") and _is_name(e_br, "subtype"):
+                    return self.BAD, f"the branches are exchanged: a str subtype is rendered through .{s_br.attr} and an enum member is passed on as an object"
+                if not _is_name(s_br, "subtype"):
+                    return self.UNKNOWN, f"string branch is {short(s_br, 40)}"
+                if isinstance(e_br, ast.Attribute) and _is_name(e_br.value, "subtype"):
+                    if e_br.attr == "value":
+                        return self.OK, ""
+                    return self.BAD, f"enum members are rendered with .{e_br.attr}, not .value: tags are no longer the catalogue values"
+                if _is_name(e_br, "subtype"):
+                    return self.BAD, "enum members are passed on as objects, not as their .value"
+                return self.UNKNOWN, f"enum branch is {short(e_br, 40)}"
+        return self.UNKNOWN, f"subtype string computed as {short(e, 50)}"
+
+    def classify_type(self, e: ast.expr | None) -> tuple[str, str]:
+        """Is ``e`` the ``wtype`` argument with the default 'myst'?"""
+        e = self.deref(e)
+        default: ast.expr | None = None
+        if e is None:
+            return self.UNKNOWN, "no type expression"
+        if _is_name(e, "wtype"):
+            default = self.param_default("wtype")
+            if default is None or is_const(default, None):
+                return self.BAD, "the raw `wtype` argument is used: it is None, not 'myst', when the caller gives no type"
+        elif isinstance(e, ast.IfExp):
+            test, flip = _strip_not(e.test)
+            wt_when_true = None
+            if _is_name(test, "wtype"):
+                wt_when_true = True
+            elif isinstance(test, ast.Compare) and len(test.ops) == 1 and _is_name(test.left, "wtype") and is_const(test.comparators[0], None):
+                if isinstance(test.ops[0], (ast.IsNot, ast.NotEq)):
+                    wt_when_true = True
+                elif isinstance(test.ops[0], (ast.Is, ast.Eq)):
+                    wt_when_true = False
+            if wt_when_true is None:
+                return self.UNKNOWN, f"type selected by {short(e.test, 40)}"
+            if flip:
+                wt_when_true = not wt_when_true
+            w_br, default = (e.body, e.orelse) if wt_when_true else (e.orelse, e.body)
+            if not _is_name(w_br, "wtype"):
+                if _is_name(default, "wtype"):
+                    return self.BAD, "the branches are exchanged: the default replaces a given wtype and None is kept"
+                return self.UNKNOWN, f"given-type branch is {short(w_br, 40)}"
+        elif isinstance(e, ast.BoolOp) and isinstance(e.op, ast.Or) and len(e.values) == 2 and _is_name(e.values[0], "wtype"):
+            default = e.values[1]
+        else:
+            return self.UNKNOWN, f"type string computed as {short(e, 50)}"
+        if isinstance(default, ast.Constant) and isinstance(default.value, str):
+            if default.value == "myst":
+                return self.OK, ""
+            return self.BAD, f"the type defaults to {default.value!r}, not 'myst'"
+        return self.UNKNOWN, f"default type is {short(default, 40)}"
+
+
+_NODE_EFFECTS = (".append", ".extend", ".insert", ".warning", ".error", ".info", "_create_warning_node")
+
+
 @rule("C14.R4")
 def r4_suppression_confined(corpus: Corpus, rep: Report, tier: str):
-    rep.rule("C14.R4", "only create_warning consults suppression; test precedes node creation; accepted forms are type / type.sub / type.*")
+    rep.rule("C14.R4", "only create_warning consults suppression; test (on the emitted tag) precedes node creation; every suppress entry is consulted; accepted forms are type / type.sub / type.*")
     g = get_callgraph(corpus)
     w = corpus.mod("warnings_")
     isw = w.func("_is_suppressed_warning")
@@ -338,119 +497,619 @@ def r4_suppression_confined(corpus: Corpus, rep: Report, tier: str):
                 else:
                     rep.violation("C14.R4", k, fi.module.site(n), f"{fi.qualname} reads {n.attr}: output other than the suppressed warning may depend on the suppress list")
     # (c) inside create_warning: per front-end branch, suppression test first, node built after
+    _check_create_warning(cw, isw, rep)
+    # (d) every entry consulted + accepted forms in _is_suppressed_warning
+    em = _emissions(corpus)
+    dotfree = all("." not in v for v in em.members.values()) and all("." not in a and "." not in b for a, b in NON_MYST_PAIRS)
+    _check_forms(isw, rep, dotfree)
+
+
+def _check_create_warning(cw: FunctionInfo, isw: FunctionInfo, rep: Report) -> None:
     cfg = get_cfg(cw)
-    tests = [n for n in cw.local_nodes() if isinstance(n, ast.If) and any(isinstance(c, ast.Call) and dotted(c.func) == "_is_suppressed_warning" for c in ast.walk(n.test))]
+    roles = _TagRoles(cw)
+
+    def supp_calls(e: ast.AST) -> list[ast.Call]:
+        return [c for c in ast.walk(e) if isinstance(c, ast.Call) and dotted(c.func) == isw.name]
+
+    # names that hold the answer of the suppression test (``suppressed = _is_suppressed_warning(...)``)
+    answer_names = {nm for nm, v in roles.defs.items() if roles.counts.get(nm) == 1 and supp_calls(v)}
+    tests: list[tuple[ast.If, bool]] = []  # (if statement, test is true when suppressed)
+    for n in cw.local_nodes():
+        if not isinstance(n, ast.If):
+            continue
+        if not (supp_calls(n.test) or (_names(n.test) & answer_names)):
+            continue
+        core, flip = _strip_not(n.test)
+        if not ((isinstance(core, ast.Call) and dotted(core.func) == isw.name) or (isinstance(core, ast.Name) and core.id in answer_names)):
+            rep.error("C14.R4", f"create_warning: suppression answer is combined with other conditions in `{short(n.test, 60)}` (not understood)")
+            return
+        tests.append((n, not flip))
     builders = []
     for n in cw.local_nodes():
         if isinstance(n, ast.Call):
             d = dotted(n.func) or ""
             if d == "_create_warning_node" or d.endswith("reporter.warning") or d.endswith(".append"):
                 builders.append(n)
-    if len(tests) < 2 or len(builders) < 3:
+    all_calls = [n for n in cw.local_nodes() if isinstance(n, ast.Call) and dotted(n.func) == isw.name]
+    if not tests or not all_calls or len(builders) < 2:
         rep.error("C14.R4", f"create_warning shape not understood ({len(tests)} suppression tests, {len(builders)} node builders)")
-    for t in tests:
-        k = f"{cw.fq}|{short(t.test, 80)}"
-        body_ok = len(t.body) == 1 and isinstance(t.body[0], ast.Return) and (t.body[0].value is None or (isinstance(t.body[0].value, ast.Constant) and t.body[0].value.value is None))
-        call = [c for c in ast.walk(t.test) if isinstance(c, ast.Call) and dotted(c.func) == "_is_suppressed_warning"][0]
-        roles_ok = len(call.args) >= 2 and _derives_from(call.args[0], cw, {"wtype", "type_str"}) and _derives_from(call.args[1], cw, {"subtype", "subtype_str"})
-        if not body_ok:
-            rep.violation("C14.R4", k, cw.module.site(t), "a suppressed warning must return None at once; the branch does something else")
-        elif not roles_ok:
-            rep.violation("C14.R4", k, cw.module.site(t), "_is_suppressed_warning must be given (type, subtype) in that order")
+        return
+    p_type, p_sub = isw.params[0], isw.params[1]
+    for call in all_calls:
+        k = f"{cw.fq}|{short(call, 80)}|arguments"
+        a0, a1 = arg_or_kw(call, 0, p_type), arg_or_kw(call, 1, p_sub)
+        t, s = roles.classify_type(a0), roles.classify_sub(a1)
+        site = cw.module.site(call)
+        if t[0] == "ok" and s[0] == "ok":
+            rep.ok("C14.R4", k, site, "tested on (type with default 'myst', catalogue string of the subtype)")
+        elif roles.classify_type(a1)[0] == "ok" and roles.classify_sub(a0)[0] == "ok":
+            rep.violation("C14.R4", k, site, "_is_suppressed_warning must be given (type, subtype) in that order")
+        elif t[0] == "bad" or s[0] == "bad":
+            rep.violation("C14.R4", k, site, "suppression is not tested on the emitted tag: " + "; ".join(x[1] for x in (t, s) if x[0] == "bad"))
         else:
-            rep.ok("C14.R4", k, cw.module.site(t))
+            rep.error("C14.R4", f"create_warning: cannot decide which tag `{short(call, 60)}` tests: " + "; ".join(x[1] for x in (t, s) if x[0] != "ok"))
+    clear_edges = set()
+    for t, pos in tests:
+        k = f"{cw.fq}|{short(t.test, 80)}"
+        site = cw.module.site(t)
+        if not pos:
+            rep.error("C14.R4", f"create_warning: inverted suppression test `{short(t.test, 50)}` (not understood)")
+            continue
+        clear_edges.add(("F", t))
+        body = [s for s in t.body if not isinstance(s, ast.Pass) and not (isinstance(s, ast.Expr) and isinstance(s.value, ast.Constant))]
+        last = body[-1] if body else None
+        if not (isinstance(last, ast.Return) and (last.value is None or is_const(last.value, None))):
+            rep.violation("C14.R4", k, site, "a suppressed warning must return None at once; the branch does something else")
+            continue
+        extra = body[:-1]
+        eff = [c for s in extra for c in ast.walk(s) if isinstance(c, ast.Call) and (dotted(c.func) or "").endswith(_NODE_EFFECTS)]
+        if eff:
+            rep.violation("C14.R4", k, site, f"a suppressed warning must return None at once; the branch also runs `{short(eff[0], 50)}`")
+        elif extra:
+            rep.error("C14.R4", f"create_warning: statements before `return None` in the suppressed branch not understood: `{short(extra[0], 50)}`")
+        else:
+            rep.ok("C14.R4", k, site)
     for b in builders:
         st = cfg.stmt_of(b)
         k = f"{cw.fq}|{short(b, 70)}"
-        # every path from ENTRY to the builder passes a suppression test's false edge
-        fedges = {("F", t) for t in tests}
-        dominated = not cfg.paths_avoiding("ENTRY", st, lambda n: n in fedges)
+        # every path from ENTRY to the builder passes a suppression test's not-suppressed edge
+        dominated = not cfg.paths_avoiding("ENTRY", st, lambda n: n in clear_edges)
         if dominated:
             rep.ok("C14.R4", k, cw.module.site(b), "dominated by the not-suppressed edge")
         else:
             rep.violation("C14.R4", k, cw.module.site(b), "the message node is built/attached on a path that has not passed the suppression test: a suppressed warning still reaches the doctree")
+
     # nothing but logging/imports/assignments precedes the test in its branch
-    for t in tests:
+    def harmless(st: ast.stmt) -> bool:
+        if isinstance(st, (ast.Import, ast.ImportFrom, ast.Assign, ast.AnnAssign, ast.Pass)):
+            return True
+        if isinstance(st, ast.Expr) and isinstance(st.value, ast.Constant):
+            return True
+        if isinstance(st, ast.Expr) and isinstance(st.value, ast.Call):
+            d = dotted(st.value.func) or ""
+            return d.endswith(".warning") and "logger" in d.lower()
+        if isinstance(st, ast.If):
+            return all(harmless(x) for x in st.body + st.orelse)
+        return False
+
+    for t, _pos in tests:
         blk = None
         p = parent(t)
         for fld in ("body", "orelse"):
             if t in getattr(p, fld, []):
                 blk = getattr(p, fld)
         for prev in (blk or [])[: (blk or []).index(t)] if blk else []:
-            okp = isinstance(prev, (ast.Import, ast.ImportFrom, ast.Assign, ast.AnnAssign)) or (
-                isinstance(prev, ast.Expr) and isinstance(prev.value, ast.Call) and (dotted(prev.value.func) or "").endswith(".warning") and "logger" in (dotted(prev.value.func) or "").lower()
-            ) or (isinstance(prev, ast.Expr) and isinstance(prev.value, ast.Constant))
             k = f"{cw.fq}|before-test|{short(prev, 60)}"
-            if okp:
+            if harmless(prev):
                 rep.ok("C14.R4", k, cw.module.site(prev))
             else:
                 rep.violation("C14.R4", k, cw.module.site(prev), "a statement with effects precedes the suppression test")
-    # (d) accepted forms in _is_suppressed_warning
-    _check_forms(isw, rep)
 
 
-def _derives_from(e: ast.expr, fi: FunctionInfo, names: set[str]) -> bool:
-    seen = set()
-    work = [n.id for n in ast.walk(e) if isinstance(n, ast.Name)]
-    while work:
-        nm = work.pop()
-        if nm in seen:
+# -- _is_suppressed_warning --------------------------------------------------------------
+
+_WHOLE_WRAPPERS = {"list", "tuple", "set", "frozenset", "sorted", "reversed", "iter"}
+
+
+def _covers_list(e: ast.expr, p_list: str) -> str:
+    """'whole' | 'part' | 'unknown': does iterating ``e`` visit every entry of the suppress list?"""
+    if isinstance(e, ast.Name):
+        return "whole" if e.id == p_list else "unknown"
+    if isinstance(e, ast.Call) and isinstance(e.func, ast.Name) and e.func.id in _WHOLE_WRAPPERS and len(e.args) == 1:
+        return _covers_list(e.args[0], p_list)
+    if isinstance(e, ast.BoolOp) and isinstance(e.op, ast.Or) and len(e.values) == 2 and isinstance(e.values[1], (ast.List, ast.Tuple)) and not e.values[1].elts:
+        return _covers_list(e.values[0], p_list)
+    if isinstance(e, ast.Subscript) and _covers_list(e.value, p_list) == "whole":
+        s = e.slice
+        if isinstance(s, ast.Slice):
+            if s.lower is None and s.upper is None and (s.step is None or (isinstance(s.step, ast.Constant) and s.step.value in (1, -1)) or unparse(s.step) == "-1"):
+                return "whole"
+            return "part"
+        return "unknown"
+    return "unknown"
+
+
+def _vrepr(e: ast.expr) -> str:
+    return repr(e.value) if isinstance(e, ast.Constant) else unparse(e)
+
+
+class _Forms:
+    """Roles inside the loop of _is_suppressed_warning: entry, part before the first dot, part after it."""
+
+    def __init__(self, isw: FunctionInfo, loop: ast.For, p_type: str, p_sub: str, p_list: str):
+        self.isw, self.loop = isw, loop
+        self.p_type, self.p_sub, self.p_list = p_type, p_sub, p_list
+        self.entry = loop.target.id  # type: ignore[union-attr]
+        self.body_nodes = {id(n) for st in loop.body for n in ast.walk(st)}
+        self.loopnames = {self.entry} | {n.id for st in loop.body for n in ast.walk(st) if isinstance(n, ast.Name) and isinstance(n.ctx, ast.Store)}
+        self.heads: dict[str, set] = {}
+        self.tails: dict[str, set] = {}
+        self.unknown: set[str] = set()
+        self.split_stmts: list[ast.stmt] = []
+        for n in isw.local_nodes():
+            if id(n) not in self.body_nodes:
+                continue
+            if isinstance(n, ast.Assign):
+                if len(n.targets) != 1:
+                    self.unknown |= _names(n)
+                    continue
+                self._assign(n, n.targets[0], n.value)
+            elif isinstance(n, ast.AnnAssign) and n.value is not None:
+                self._assign(n, n.target, n.value)
+            elif isinstance(n, (ast.AugAssign, ast.NamedExpr)):
+                self.unknown |= {x.id for x in ast.walk(n.target) if isinstance(x, ast.Name)}
+            elif isinstance(n, (ast.For, ast.comprehension, ast.With)) and n is not loop:
+                t = getattr(n, "target", None)
+                if t is not None:
+                    self.unknown |= _names(t)
+
+    def is_split(self, e: ast.AST) -> bool:
+        return isinstance(e, ast.Call) and isinstance(e.func, ast.Attribute) and e.func.attr in ("split", "rsplit") and _is_name(e.func.value, self.entry)
+
+    def _assign(self, st: ast.stmt, tgt: ast.expr, val: ast.expr) -> None:
+        if isinstance(tgt, (ast.Tuple, ast.List)) and len(tgt.elts) == 2 and all(isinstance(x, ast.Name) for x in tgt.elts):
+            a, b = tgt.elts[0].id, tgt.elts[1].id  # type: ignore[union-attr]
+            if self.is_split(val):
+                self.heads.setdefault(a, set()).add("split")
+                self.tails.setdefault(b, set()).add("split")
+                self.split_stmts.append(st)
+                return
+            if isinstance(val, (ast.Tuple, ast.List)) and len(val.elts) == 2:
+                self._single(st, a, val.elts[0])
+                self._single(st, b, val.elts[1])
+                return
+            self.unknown |= {a, b}
+        elif isinstance(tgt, ast.Name):
+            self._single(st, tgt.id, val)
+        else:
+            self.unknown |= {x.id for x in ast.walk(tgt) if isinstance(x, ast.Name)}
+
+    def _single(self, st: ast.stmt, name: str, val: ast.expr) -> None:
+        if _is_name(val, self.entry):
+            self.heads.setdefault(name, set()).add("bare")
+        elif isinstance(val, ast.Constant):
+            self.tails.setdefault(name, set()).add(("const", val.value))
+        elif isinstance(val, ast.Subscript) and self.is_split(val.value) and isinstance(val.slice, ast.Constant) and val.slice.value in (0, 1):
+            (self.heads if val.slice.value == 0 else self.tails).setdefault(name, set()).add("split")
+            if val.slice.value == 1:
+                self.split_stmts.append(st)
+        else:
+            self.unknown.add(name)
+
+    # -- facts ------------------------------------------------------------------------------
+    def tail_values(self, e: ast.expr) -> tuple[str, set[str], bool] | None:
+        """(name, accepted value texts, negated) for a test of a loop name against values."""
+        if isinstance(e, ast.BoolOp) and isinstance(e.op, ast.Or):
+            parts = [self.tail_values(v) for v in e.values]
+            if all(p is not None and not p[2] for p in parts) and len({p[0] for p in parts}) == 1:  # type: ignore[index]
+                return parts[0][0], set().union(*[p[1] for p in parts]), False  # type: ignore[index]
+            return None
+        if not (isinstance(e, ast.Compare) and len(e.ops) == 1 and isinstance(e.left, ast.Name) and e.left.id in self.loopnames and e.left.id != self.entry):
+            return None
+        op, right = e.ops[0], e.comparators[0]
+        if self.p_type in _names(right):
+            return None
+        if isinstance(op, (ast.In, ast.NotIn)) and isinstance(right, (ast.Tuple, ast.List, ast.Set)):
+            return e.left.id, {_vrepr(x) for x in right.elts}, isinstance(op, ast.NotIn)
+        if isinstance(op, (ast.Is, ast.Eq, ast.IsNot, ast.NotEq)) and isinstance(right, (ast.Constant, ast.Name)):
+            return e.left.id, {_vrepr(right)}, isinstance(op, (ast.IsNot, ast.NotEq))
+        return None
+
+    def classify(self, test: ast.expr, pol: bool) -> tuple:
+        """One branch fact -> (kind, ...):
+        ("type", name, holds) name ==/!= warning type; ("sub", name, values, holds); ("dot", holds) '.' in entry;
+        ("bare-member", holds) warning type in suppress list; ("harmless", why); ("harmless-entry", why);
+        ("or", [facts]) a disjunction; ("loop-unknown", text) / ("inv-unknown", text)."""
+        core, flip = _strip_not(test)
+        if flip:
+            return self.classify(core, not pol)
+        names = _names(test)
+        if isinstance(test, ast.BoolOp):
+            if isinstance(test.op, ast.Or) and pol:
+                tv = self.tail_values(test)
+                if tv is not None:
+                    return ("sub", tv[0], tv[1], True)
+            if isinstance(test.op, ast.Or) == pol:  # Or/True, And/False: a disjunction
+                return ("or", [self.classify(v, pol) for v in test.values])
+            return ("loop-unknown" if names & self.loopnames else "inv-unknown", unparse(test))
+        if isinstance(test, ast.Compare) and len(test.ops) == 1 and isinstance(test.ops[0], (ast.Eq, ast.NotEq)):
+            l, r = test.left, test.comparators[0]
+            for x, y in ((l, r), (r, l)):
+                if _is_name(x, self.p_type) and isinstance(y, ast.Name) and y.id in self.loopnames:
+                    return ("type", y.id, pol == isinstance(test.ops[0], ast.Eq))
+        if isinstance(test, ast.Compare) and len(test.ops) == 1 and isinstance(test.ops[0], (ast.In, ast.NotIn)):
+            if is_const(test.left, ".") and _is_name(test.comparators[0], self.entry):
+                return ("dot", pol == isinstance(test.ops[0], ast.In))
+            if _is_name(test.left, self.p_type) and _is_name(test.comparators[0], self.p_list):
+                return ("bare-member", pol == isinstance(test.ops[0], ast.In))
+        tv = self.tail_values(test)
+        if tv is not None:
+            name, vals, neg = tv
+            return ("sub", name, vals, pol != neg)
+        if names & self.loopnames:
+            if _is_name(test, self.entry) and pol:
+                return ("harmless-entry", "non-empty entry")
+            if isinstance(test, ast.Call) and dotted(test.func) == "isinstance" and len(test.args) == 2 and _is_name(test.args[0], self.entry) and dotted(test.args[1]) == "str" and pol:
+                return ("harmless-entry", "str entry")
+            return ("loop-unknown", unparse(test))
+        # loop-invariant
+        if isinstance(test, ast.Compare) and len(test.ops) == 1 and isinstance(test.left, ast.Name) and test.left.id in (self.p_type, self.p_sub, self.p_list) and is_const(test.comparators[0], None) and isinstance(test.ops[0], (ast.Is, ast.IsNot, ast.Eq, ast.NotEq)):
+            return ("harmless", "None test of a parameter (create_warning never passes None)")
+        if names and names <= {self.p_list, "len"}:
+            return ("harmless", "emptiness of the suppress list")
+        return ("inv-unknown", unparse(test))
+
+
+def _f_unknown(f: tuple) -> bool:
+    return f[0] in ("loop-unknown", "inv-unknown") or (f[0] == "or" and any(_f_unknown(x) for x in f[1]))
+
+
+def _f_loopdep(f: tuple) -> bool:
+    return f[0] in ("type", "sub", "dot", "loop-unknown", "harmless-entry") or (f[0] == "or" and any(_f_loopdep(x) for x in f[1]))
+
+
+def _f_implies(f: tuple, kind: str) -> bool:
+    return (f[0] == kind and f[-1] is True) or (f[0] == "or" and bool(f[1]) and all(_f_implies(x, kind) for x in f[1]))
+
+
+def _f_text(f: tuple) -> str:
+    if f[0] == "or":
+        return " or ".join(_f_text(x) for x in f[1])
+    return str(f[1]) if f[0].endswith("unknown") else f[0]
+
+
+def _check_forms(isw: FunctionInfo, rep: Report, dotfree: bool) -> None:
+    R = "C14.R4"
+    params = isw.params
+    if len(params) < 3:
+        rep.error(R, "_is_suppressed_warning signature changed")
+        return
+    p_type, p_sub, p_list = params[:3]
+    kf = f"{isw.fq}|accepted forms"
+    kc = f"{isw.fq}|every entry consulted"
+    site = isw.site()
+    msite = isw.module.site
+    cfg = get_cfg(isw)
+    viol: list[tuple[str, str, str]] = []
+    unsup: list[str] = []
+
+    # the loop over the suppress list
+    loops = [n for n in isw.local_nodes() if isinstance(n, ast.For) and p_list in _names(n.iter)]
+    if len(loops) != 1 or not isinstance(loops[0].target, ast.Name):
+        rep.error(R, f"_is_suppressed_warning: expected one `for <entry> in <suppress list>` loop, found {len(loops)} (rewritten in an unknown idiom)")
+        return
+    loop = loops[0]
+    cover = _covers_list(loop.iter, p_list)
+    if cover == "part":
+        viol.append((kc + "|loop range", msite(loop), f"the loop ranges over `{unparse(loop.iter)}`, a part of the suppress list: the other entries are never consulted"))
+    elif cover == "unknown":
+        unsup.append(f"cannot decide whether `{unparse(loop.iter)}` visits every entry of the suppress list")
+    fm = _Forms(isw, loop, p_type, p_sub, p_list)
+
+    def in_body(n: ast.AST) -> bool:
+        return id(n) in fm.body_nodes
+
+    def guard_facts(st: ast.stmt) -> list[tuple]:
+        return [fm.classify(t, pol) for t, pol in cfg.guards(st)]
+
+    # the split: on the first dot only, and only when there is a dot
+    splits = [c for c in isw.local_nodes() if fm.is_split(c)]
+    if not splits:
+        unsup.append("no `<entry>.split('.', 1)` found (entry decomposed in an unknown idiom)")
+    for c in splits:
+        sep, mx = arg_or_kw(c, 0, "sep"), arg_or_kw(c, 1, "maxsplit")
+        if not is_const(sep, "."):
+            viol.append((kf + "|split", msite(c), f"the entry is split on {unparse(sep) if sep is not None else 'whitespace'}, not on '.'"))
+        elif not is_const(mx, 1):
+            viol.append((kf + "|split", msite(c), "the entry is not split on the first dot only (maxsplit=1): an entry with two dots cannot be unpacked into (type, subtype)"))
+        elif c.func.attr == "rsplit" and not dotfree:  # type: ignore[union-attr]
+            viol.append((kf + "|split", msite(c), "the entry is split on the last dot although catalogue tags contain dots"))
+    for st in fm.split_stmts:
+        fs = guard_facts(st)
+        dots = [f for f in fs if f[0] == "dot"]
+        if any(f[1] for f in dots):
             continue
-        seen.add(nm)
-        if nm in names:
-            return True
-        for n in fi.local_nodes():
-            if isinstance(n, ast.Assign) and any(isinstance(t, ast.Name) and t.id == nm for t in n.targets):
-                work.extend(x.id for x in ast.walk(n.value) if isinstance(x, ast.Name))
+        if dots:
+            viol.append((kf + "|bare type", msite(st), "the two-part unpack of the split runs when the entry has NO dot: a bare type entry raises ValueError instead of matching"))
+        elif any(isinstance(a, (ast.Try, ast.Match)) for a in ancestors(st)) or any(_f_unknown(f) for f in fs):
+            unsup.append(f"cannot decide whether `{short(st, 50)}` only runs for entries with a dot")
+        else:
+            viol.append((kf + "|bare type", msite(st), "the two-part unpack of the split is not guarded by `'.' in entry`: a bare type entry raises ValueError instead of matching"))
+
+    # exits
+    rets = [n for n in isw.local_nodes() if isinstance(n, ast.Return)]
+    breaks = [n for n in isw.local_nodes() if isinstance(n, ast.Break) and in_body(n) and next((a for a in ancestors(n) if isinstance(a, (ast.For, ast.While))), None) is loop]
+
+    def rkind(r: ast.Return) -> str:
+        if r.value is None or is_const(r.value, None) or is_const(r.value, False):
+            return "neg"
+        if is_const(r.value, True):
+            return "pos"
+        return "expr"
+
+    def reachable_without(r: ast.stmt, kind: str) -> bool:
+        """Is there a path to ``r`` (from the start of an iteration / of the function) on which every branch
+        taken is understood and none of them establishes the fact ``kind``?"""
+
+        def blocks(n) -> bool:
+            if not (isinstance(n, tuple) and n[0] in ("T", "F") and isinstance(n[1], (ast.If, ast.While))):
+                return False
+            fs = [fm.classify(t, pol) for t, pol in flow_facts(n[1].test, n[0] == "T")]
+            return any(_f_unknown(f) or _f_implies(f, kind) for f in fs)
+
+        return cfg.paths_avoiding(("T", loop) if in_body(r) else "ENTRY", r, blocks)
+
+    positives_ok = 0
+    for r in rets:
+        kind = rkind(r)
+        fs = guard_facts(r)
+        unknown_f = [f for f in fs if _f_unknown(f)]
+        if kind == "pos":
+            if unknown_f:
+                unsup.append(f"`return True` under condition(s) not understood: {'; '.join(_f_text(f) for f in unknown_f)[:120]}")
+                continue
+            if not in_body(r) and any(_f_implies(f, "bare-member") for f in fs):
+                continue  # `if type in suppress_list: return True` - the bare type form, decided early
+            if any(f[0] == "dot" for f in fs):
+                unsup.append("`return True` decided separately for entries with / without a dot (case split not understood)")
+                continue
+            types = [f for f in fs if f[0] == "type" and f[2]]
+            subs = [f for f in fs if f[0] == "sub" and f[3]]
+            bad_here = False
+            if not types:
+                if reachable_without(r, "type"):
+                    viol.append((kf + "|type", msite(r), "a positive answer is given without comparing the entry's type part with the warning's type: entries of another type suppress the warning"))
+                    bad_here = True
+                else:
+                    unsup.append("`return True`: the type comparison does not dominate it (merged paths not understood)")
+                    continue
+            if not subs:
+                if reachable_without(r, "sub"):
+                    viol.append((kf + "|sub-target", msite(r), "a positive answer is given without testing the part after the dot: `type.other_subtype` suppresses every warning of the type"))
+                    bad_here = True
+                else:
+                    unsup.append("`return True`: the sub-target test does not dominate it (merged paths not understood)")
+                    continue
+            if bad_here:
+                continue
+            for _, h, _pol in types:
+                roles_h = fm.heads.get(h, set())
+                if h in fm.tails:
+                    viol.append((kf + "|roles", msite(r), f"`{h}`, compared with the warning type, holds the part AFTER the dot (or the bare-entry sentinel) on some path: type.subtype entries no longer match"))
+                    bad_here = True
+                elif h in fm.unknown or not {"split", "bare"} <= roles_h:
+                    unsup.append(f"cannot derive `{h}` as the entry's type part on both the dotted and the bare path")
+                    bad_here = True
+            for _, t, vals, _pol in subs:
+                roles_t = fm.tails.get(t, set())
+                consts = {x[1] for x in roles_t if isinstance(x, tuple)}
+                if t in fm.heads:
+                    if not any(f[1] in fm.tails for f in types):
+                        viol.append((kf + "|roles", msite(r), f"`{t}`, tested against the accepted sub-targets, holds the part BEFORE the dot on some path"))
+                    bad_here = True
+                    continue
+                if t in fm.unknown or "split" not in roles_t or not consts:
+                    unsup.append(f"cannot derive `{t}` as the part after the dot / the bare-entry sentinel")
+                    bad_here = True
+                    continue
+                missing_sent = {repr(c) for c in consts} - vals
+                if missing_sent:
+                    viol.append((kf + "|bare type", msite(r), f"a bare type entry gives `{t}` = {', '.join(sorted(missing_sent))}, which the test {sorted(vals)} does not accept: the bare type no longer suppresses"))
+                    bad_here = True
+                    continue
+                rest = vals - {repr(c) for c in consts}
+                want = {p_sub, "'*'"}
+                if rest != want:
+                    if "'*'" not in rest:
+                        why = "the `type.*` form is no longer accepted"
+                    elif p_sub not in rest:
+                        why = "the `type.subtype` form is no longer accepted"
+                    else:
+                        why = f"additional sub-targets {sorted(rest - want)} are accepted"
+                    viol.append((kf + "|sub-target values", msite(r), f"sub-target is compared with {sorted(vals)}, expected {{None, {p_sub}, '*'}}: {why}"))
+                    bad_here = True
+                elif consts != {None}:
+                    unsup.append(f"bare-entry sentinel {sorted(map(repr, consts))} instead of None (not understood)")
+                    bad_here = True
+            if not bad_here and in_body(r):
+                positives_ok += 1
+            continue
+        # a negative (or not constantly positive) answer
+        if not in_body(r):
+            if kind == "expr":
+                unsup.append(f"`{short(r, 50)}` outside the loop: answer computed in an unknown idiom")
+            elif any(f[0] not in ("harmless", "bare-member") for f in fs):
+                unsup.append(f"negative answer outside the loop under condition(s) not understood: {'; '.join(_f_text(f) for f in fs if f[0] not in ('harmless', 'bare-member'))[:100]}")
+            continue
+        val_names = _names(r.value) if r.value is not None else set()
+        k = f"{kc}|{short(r, 60)}"
+        if not fs or any(_f_loopdep(f) for f in fs) or (val_names & fm.loopnames):
+            what = "a negative answer" if kind == "neg" else f"the answer `{short(r.value, 40)}` (negative for a non-matching entry)"
+            cond = "for the first entry that reaches it" if not fs else "under a condition on the current entry"
+            viol.append((k, msite(r), f"{what} is returned from inside the loop over the suppress list {cond}: the entries after it are never consulted, so a tag listed later no longer suppresses its warnings"))
+        elif unknown_f or kind == "expr":
+            unsup.append(f"`{short(r, 40)}` inside the loop under loop-invariant condition(s) not understood: {'; '.join(_f_text(f) for f in unknown_f)[:100]}")
+    for b in breaks:
+        fs = guard_facts(b)
+        after_neg = all(rkind(r) == "neg" for r in rets if not in_body(r))
+        if not after_neg:
+            unsup.append("`break` out of the loop with a computed answer after it (flag idiom not understood)")
+        elif not fs or any(_f_loopdep(f) for f in fs):
+            viol.append((f"{kc}|break", msite(b), "the loop over the suppress list is left by `break` under a condition on the current entry and a negative answer follows: the entries after it are never consulted"))
+        elif any(_f_unknown(f) for f in fs):
+            unsup.append("`break` under a loop-invariant condition not understood")
+    if not positives_ok and not viol and not unsup:
+        unsup.append("no `return True` inside the loop (rewritten in an unknown idiom)")
+
+    if viol:
+        seen = set()
+        for k, s, what in viol:
+            if (k, what) not in seen:
+                seen.add((k, what))
+                rep.violation(R, k, s, ("suppression no longer accepts exactly bare type / type.subtype / type.*: " if k.startswith(kf) else "") + what)
+        return
+    if unsup:
+        for m in dict.fromkeys(unsup):
+            rep.error(R, "_is_suppressed_warning: " + m)
+        return
+    rep.ok(R, kf, site, "entry type part == type and part after the first dot in (None, subtype, '*'); split('.', 1) only when there is a dot")
+    rep.ok(R, kc, site, "the loop visits the whole suppress list; no negative answer and no break inside it")
+
+
+# -- R5 -----------------------------------------------------------------------------------
+
+
+def _presence_test(e: ast.expr, var: str) -> int:
+    """+1: true exactly when the node exists; -1: true exactly when it is None; 0: not a pure test of var."""
+    core, flip = _strip_not(e)
+    sign = 0
+    if _is_name(core, var):
+        sign = 1
+    elif isinstance(core, ast.Compare) and len(core.ops) == 1 and _is_name(core.left, var) and is_const(core.comparators[0], None):
+        if isinstance(core.ops[0], (ast.IsNot, ast.NotEq)):
+            sign = 1
+        elif isinstance(core.ops[0], (ast.Is, ast.Eq)):
+            sign = -1
+    return -sign if flip else sign
+
+
+def _only_adds(stmts: list[ast.stmt], var: str) -> bool:
+    """Every statement only puts ``var`` into a list."""
+    if not stmts:
+        return False
+    for st in stmts:
+        if isinstance(st, ast.Pass):
+            continue
+        if isinstance(st, ast.Expr) and isinstance(st.value, ast.Call) and isinstance(st.value.func, ast.Attribute):
+            c = st.value
+            if c.func.attr == "append" and len(c.args) == 1 and _is_name(c.args[0], var) and not c.keywords:
+                continue
+            if c.func.attr == "insert" and len(c.args) == 2 and _is_name(c.args[1], var):
+                continue
+            if c.func.attr == "extend" and len(c.args) == 1 and isinstance(c.args[0], (ast.List, ast.Tuple)) and all(_is_name(x, var) for x in c.args[0].elts):
+                continue
+        if isinstance(st, ast.AugAssign) and isinstance(st.op, ast.Add) and isinstance(st.value, (ast.List, ast.Tuple)) and all(_is_name(x, var) for x in st.value.elts):
+            continue
+        if isinstance(st, ast.Assign) and len(st.targets) == 1 and isinstance(st.targets[0], ast.Name) and isinstance(st.value, ast.BinOp) and isinstance(st.value.op, ast.Add):
+            # out = [x] + out / out = out + [x]
+            sides = [st.value.left, st.value.right]
+            lst = [s for s in sides if isinstance(s, ast.List) and s.elts and all(_is_name(x, var) for x in s.elts)]
+            same = [s for s in sides if _is_name(s, st.targets[0].id)]
+            if len(lst) == 1 and len(same) == 1:
+                continue
+        return False
+    return True
+
+
+def _maybe_only_adds(stmts: list[ast.stmt], var: str) -> bool:
+    """Not recognised as list insertion, but every statement works on ``var`` and none leaves the block."""
+    if not stmts:
+        return False
+    for st in stmts:
+        if any(isinstance(x, (ast.Return, ast.Continue, ast.Break, ast.Raise)) for x in ast.walk(st)):
+            return False
+        if not any(_is_name(x, var) for x in ast.walk(st)):
+            return False
+    return True
+
+
+def _is_empty_seq(e: ast.expr) -> bool:
+    return isinstance(e, (ast.List, ast.Tuple)) and not e.elts
+
+
+def _presence_guarded(n: ast.Name, fi: FunctionInfo) -> bool:
+    """Is this use only evaluated when the variable holds a node (not None)?"""
+    var = n.id
+    child: ast.AST = n
+    for a in ancestors(n):
+        if isinstance(a, ast.IfExp):
+            s = _presence_test(a.test, var)
+            if (s > 0 and child is a.body) or (s < 0 and child is a.orelse):
+                return True
+        if isinstance(a, ast.BoolOp) and isinstance(a.op, ast.And) and child in a.values:
+            if any(_presence_test(v, var) > 0 for v in a.values[: a.values.index(child)]):  # type: ignore[arg-type]
+                return True
+        if isinstance(a, ast.stmt):
+            break
+        child = a
+    if fi.is_lambda:
+        return False
+    try:
+        cfg = get_cfg(fi)
+        st = cfg.stmt_of(n)
+        for test, pol in cfg.guards(st):
+            s = _presence_test(test, var)
+            if s and (s > 0) == pol:
+                return True
+    except Exception:
+        return False
     return False
 
 
-def _check_forms(isw: FunctionInfo, rep: Report) -> None:
-    params = isw.params
-    if len(params) < 3:
-        rep.error("C14.R4", "_is_suppressed_warning signature changed")
-        return
-    p_type, p_sub, p_list = params[:3]
-    k = f"{isw.fq}|accepted forms"
-    site = isw.site()
-    rets_true = [n for n in isw.local_nodes() if isinstance(n, ast.Return) and isinstance(n.value, ast.Constant) and n.value.value is True]
-    if not rets_true:
-        rep.error("C14.R4", "_is_suppressed_warning: no `return True` found (rewritten in an unknown idiom)")
-        return
-    cfg = get_cfg(isw)
-    ok_any = False
-    why = ""
-    for r in rets_true:
-        facts_ = [(unparse(t), pol, t) for t, pol in cfg.guards(r)]
-        type_eq = any(pol and isinstance(t, ast.Compare) and isinstance(t.ops[0], ast.Eq) and {unparse(t.left), unparse(t.comparators[0])} >= {p_type} for _, pol, t in facts_)
-        sub_in = False
-        for _, pol, t in facts_:
-            if pol and isinstance(t, ast.Compare) and isinstance(t.ops[0], ast.In) and isinstance(t.comparators[0], (ast.Tuple, ast.List, ast.Set)):
-                elts = t.comparators[0].elts
-                vals = set()
-                for e in elts:
-                    if isinstance(e, ast.Constant):
-                        vals.add(repr(e.value))
-                    else:
-                        vals.add(unparse(e))
-                if vals == {"None", p_sub, "'*'"}:
-                    sub_in = True
-                else:
-                    why = f"sub-target is compared with {sorted(vals)}, expected {{None, {p_sub}, '*'}}"
-        if type_eq and sub_in:
-            ok_any = True
-    # the split must be on the first dot only
-    split_ok = any(
-        isinstance(c, ast.Call) and isinstance(c.func, ast.Attribute) and c.func.attr == "split" and len(c.args) == 2 and isinstance(c.args[0], ast.Constant) and c.args[0].value == "." and isinstance(c.args[1], ast.Constant) and c.args[1].value == 1
-        for c in isw.local_nodes()
-        if isinstance(c, ast.Call)
-    )
-    # the loop must range over the suppress list parameter
-    loop_ok = any(isinstance(n, ast.For) and unparse(n.iter) == p_list for n in isw.local_nodes())
-    if ok_any and split_ok and loop_ok:
-        rep.ok("C14.R4", k, site, "type == target and subtarget in (None, subtype, '*'); split('.', 1); loop over the suppress list")
-    else:
-        rep.violation("C14.R4", k, site, "suppression no longer accepts exactly bare type / type.subtype / type.*: " + (why or ("split on first dot missing" if not split_ok else "type equality / loop over suppress list missing")))
+def _use_kind(n: ast.Name, fi: FunctionInfo):
+    """True if the use cannot influence anything but the presence of the node itself;
+    a string (what depends on it) for a violation; None if the use is not understood."""
+    var = n.id
+    p = parent(n)
+    # climb through a pure presence test (x / not x / x is None / x is not None)
+    top: ast.AST = n
+    while isinstance(parent(top), (ast.UnaryOp, ast.Compare)) and _presence_test(parent(top), var) != 0:  # type: ignore[arg-type]
+        top = parent(top)  # type: ignore[assignment]
+    tp = parent(top)
+    if isinstance(tp, ast.IfExp) and tp.test is top:
+        sign = _presence_test(tp.test, var)
+        there, absent = (tp.body, tp.orelse) if sign > 0 else (tp.orelse, tp.body)
+        if isinstance(there, ast.List) and there.elts and all(_is_name(e, var) for e in there.elts) and _is_empty_seq(absent):
+            return True
+        return "selects between two expressions"
+    if isinstance(tp, (ast.If, ast.While)) and tp.test is top:
+        if isinstance(tp, ast.If):
+            sign = _presence_test(tp.test, var)
+            there, absent = (tp.body, tp.orelse) if sign > 0 else (tp.orelse, tp.body)
+            if all(isinstance(s, ast.Pass) for s in absent):
+                if _only_adds(there, var):
+                    return True
+                if _maybe_only_adds(there, var):
+                    return None
+        return "is branched on"
+    if isinstance(tp, ast.BoolOp) and top in tp.values:
+        # `if x and <other>: out.append(x)` - still only the node's own presence
+        ip = parent(tp)
+        if isinstance(tp.op, ast.And) and isinstance(ip, ast.If) and ip.test is tp and _presence_test(top, var) > 0 and _only_adds(ip.body, var) and not ip.orelse:  # type: ignore[arg-type]
+            return True
+        return "is tested in a condition"
+    if top is not n:
+        return "is tested in a condition"
+    placed = isinstance(p, (ast.List, ast.Tuple)) or (isinstance(p, ast.Call) and isinstance(p.func, ast.Attribute) and p.func.attr in ("append", "insert") and n in p.args)
+    if placed:
+        if _presence_guarded(n, fi):
+            return True
+        return "is put into a node list without a test for None: a suppressed warning puts None among the nodes"
+    if isinstance(p, (ast.UnaryOp, ast.Compare, ast.BoolOp)):
+        return "is tested in a condition"
+    if isinstance(p, ast.Return) and p.value is n:
+        return True
+    return None
 
 
 @rule("C14.R5")
@@ -461,57 +1120,56 @@ def r5_return_value_unused(corpus: Corpus, rep: Report, tier: str):
         if kind not in ("create_warning()", "renderer.create_warning()"):
             continue
         k = f"{stmt_key(fi, call, 90)}"
-        site = fi.module.site(call)
-        p = parent(call)
-        if isinstance(p, ast.Expr):
-            rep.ok("C14.R5", k, site, "discarded")
-            continue
-        if isinstance(p, ast.Return) or (fi.is_lambda and fi.node.body is call):
-            # wrapper: judged at its call sites (they are emission sites themselves) or callback whose value is discarded
-            bad = _callback_value_used(em, fi)
-            if bad:
-                rep.violation("C14.R5", k, site, bad)
-            else:
-                rep.ok("C14.R5", k, site, "returned by a wrapper whose callers are judged")
-            continue
-        if isinstance(p, ast.Assign) and len(p.targets) == 1 and isinstance(p.targets[0], ast.Name):
-            var = p.targets[0].id
-            bad = None
-            for n in fi.local_nodes():
-                if isinstance(n, ast.Name) and n.id == var and isinstance(n.ctx, ast.Load) and n.lineno >= p.lineno:
-                    how = _use_kind(n)
-                    if how is not True:
-                        bad = (n, how)
-            if bad:
-                rep.violation("C14.R5", k, fi.module.site(bad[0]), f"the result of create_warning (None when suppressed) {bad[1]}: suppressing the warning changes more than the warning")
-            else:
-                rep.ok("C14.R5", k, site, f"only used as an optional list element ({var})")
-            continue
-        rep.violation("C14.R5", k, site, f"the result of create_warning is used in `{short(p, 60)}`: suppressing the warning changes more than the warning")
+        status, site, what = _judge_result(em, fi, call, 0)
+        if status == "ok":
+            rep.ok("C14.R5", k, site, what)
+        elif status == "violation":
+            rep.violation("C14.R5", k, site, what)
+        else:
+            rep.error("C14.R5", f"{site}: {what}")
     rep.expect_min("C14.R5", 25, "create_warning call sites")
 
 
-def _use_kind(n: ast.Name):
-    """True if the use cannot influence anything but the presence of the node itself."""
-    p = parent(n)
-    if isinstance(p, ast.List) and isinstance(parent(p), ast.IfExp) and parent(p).body is p:
-        return True
-    if isinstance(p, ast.IfExp) and p.test is n:
-        # [x] if x else []
-        if isinstance(p.body, ast.List) and isinstance(p.orelse, ast.List) and not p.orelse.elts and all(isinstance(e, ast.Name) and e.id == n.id for e in p.body.elts):
-            return True
-        return "selects between two expressions"
-    if isinstance(p, ast.List):
-        return True
-    if isinstance(p, ast.Call) and isinstance(p.func, ast.Attribute) and p.func.attr in ("append",) and n in p.args:
-        return True
-    if isinstance(p, (ast.If, ast.While)) and p.test is n:
-        return "is branched on"
-    if isinstance(p, ast.UnaryOp) or isinstance(p, ast.Compare) or isinstance(p, ast.BoolOp):
-        return "is tested in a condition"
-    if isinstance(p, ast.Return):
-        return True
-    return f"flows into `{short(p, 50)}`"
+def _judge_result(em: Emissions, fi: FunctionInfo, call: ast.Call, depth: int) -> tuple[str, str, str]:
+    site = fi.module.site(call)
+    p = parent(call)
+    if isinstance(p, ast.Expr):
+        return "ok", site, "discarded"
+    if (isinstance(p, ast.Return) and p.value is call) or (fi.is_lambda and fi.node.body is call):
+        if fi.fq == em.cw_meth.fq:
+            return "ok", site, "returned by the renderer wrapper, whose call sites are judged as emission sites"
+        if fi.is_lambda:
+            bad = _callback_value_used(em, fi)
+            return ("violation", site, bad) if bad else ("ok", site, "returned by a callback whose callers discard it")
+        # another wrapper: follow its call sites
+        callers = em.g.callers().get(fi.fq, [])
+        if depth > 3 or not callers:
+            return "error", site, f"the result is returned by {fi.qualname}, whose call sites cannot be followed"
+        for cfi, ccall in callers:
+            st, s2, w2 = _judge_result(em, cfi, ccall, depth + 1)
+            if st != "ok":
+                return st, s2, w2
+        return "ok", site, f"returned by wrapper {fi.qualname}; its {len(callers)} call site(s) judged"
+    if isinstance(p, ast.Assign) and len(p.targets) == 1 and isinstance(p.targets[0], ast.Name):
+        var = p.targets[0].id
+        stores = [n for n in fi.local_nodes() if isinstance(n, ast.Name) and n.id == var and isinstance(n.ctx, ast.Store)]
+        if len(stores) != 1:
+            return "error", site, f"`{var}` (result of create_warning) is assigned more than once: uses not followed"
+        bad = None
+        unk = None
+        for n in fi.local_nodes():
+            if isinstance(n, ast.Name) and n.id == var and isinstance(n.ctx, ast.Load):
+                how = _use_kind(n, fi)
+                if how is None:
+                    unk = n
+                elif how is not True:
+                    bad = (n, how)
+        if bad:
+            return "violation", fi.module.site(bad[0]), f"the result of create_warning (None when suppressed) {bad[1]}: suppressing the warning changes more than the warning"
+        if unk is not None:
+            return "error", fi.module.site(unk), f"cannot decide what depends on the result of create_warning in `{short(parent(unk), 50)}`"
+        return "ok", site, f"only used as an optional list element ({var})"
+    return "violation", site, f"the result of create_warning is used in `{short(p, 60)}`: suppressing the warning changes more than the warning"
 
 
 def _callback_value_used(em: Emissions, wrapper: FunctionInfo) -> str | None:
@@ -524,100 +1182,342 @@ def _callback_value_used(em: Emissions, wrapper: FunctionInfo) -> str | None:
     return None
 
 
+# -- R6 -----------------------------------------------------------------------------------
+
+
+def _tag_parts(roles: _TagRoles, e: ast.expr | None, depth: int = 0) -> list | None:
+    """Flatten a message expression into literal text and ('v', expr) holes; None if not understood."""
+    if e is None or depth > 6:
+        return None
+    if isinstance(e, ast.Constant) and isinstance(e.value, str):
+        return [e.value]
+    if isinstance(e, ast.JoinedStr):
+        out: list = []
+        for v in e.values:
+            if isinstance(v, ast.Constant):
+                out.append(v.value)
+            elif isinstance(v, ast.FormattedValue) and v.conversion in (-1, 115) and v.format_spec is None:
+                out.append(("v", v.value))
+            else:
+                return None
+        return out
+    if isinstance(e, ast.BinOp) and isinstance(e.op, ast.Add):
+        a, b = _tag_parts(roles, e.left, depth + 1), _tag_parts(roles, e.right, depth + 1)
+        return None if a is None or b is None else a + b
+    if isinstance(e, ast.Name):
+        d = roles.deref(e)
+        if d is e:
+            return [("v", e)]
+        return _tag_parts(roles, d, depth + 1)
+    return None
+
+
+def _merge_text(parts: list) -> list:
+    out: list = []
+    for p in parts:
+        if isinstance(p, str) and out and isinstance(out[-1], str):
+            out[-1] += p
+        elif p != "":
+            out.append(p)
+    return out
+
+
 @rule("C14.R6")
 def r6_tag_format(corpus: Corpus, rep: Report, tier: str):
-    rep.rule("C14.R6", "enum members are rendered with .value; message tag is [type.subtype]; type defaults to 'myst'")
+    rep.rule("C14.R6", "enum members are rendered with .value; type defaults to 'myst'; log record and message node carry the same [type.subtype] tag; the renderer wrapper forwards its arguments")
+    R = "C14.R6"
     w = corpus.mod("warnings_")
     cw = w.func("create_warning")
-    src = {unparse(n.targets[0]): n.value for n in cw.local_nodes() if isinstance(n, ast.Assign) and isinstance(n.targets[0], ast.Name)}
     site = cw.site()
-    # subtype_str
-    e = src.get("subtype_str")
-    ok = isinstance(e, ast.IfExp) and {unparse(e.body), unparse(e.orelse)} == {"subtype", "subtype.value"} and "isinstance(subtype, str)" in unparse(e.test)
-    if ok and unparse(e.body) == "subtype.value":
-        ok = unparse(e.test).startswith("not ")
-    (rep.ok if ok else rep.violation)("C14.R6", f"{cw.fq}|subtype_str", site, *([] if ok else ["subtype string is not `subtype if isinstance(subtype, str) else subtype.value`: tags would no longer be the catalogue values"]))
-    e = src.get("type_str")
-    ok = isinstance(e, ast.IfExp) and unparse(e.body) == "wtype" and isinstance(e.orelse, ast.Constant) and e.orelse.value == "myst" and unparse(e.test) == "wtype is not None"
-    (rep.ok if ok else rep.violation)("C14.R6", f"{cw.fq}|type_str", site, *([] if ok else ["type no longer defaults to 'myst'"]))
-    e = src.get("message_with_type")
-    ok = isinstance(e, ast.JoinedStr) and unparse(e).replace('"', "'") == "f'{message} [{type_str}.{subtype_str}]'"
-    (rep.ok if ok else rep.violation)("C14.R6", f"{cw.fq}|message_with_type", site, *([] if ok else ["message tag is not ' [type.subtype]'"]))
-    # the Sphinx logger call passes type_str/subtype_str
+    if not {"message", "subtype", "wtype"} <= set(cw.params):
+        rep.error(R, "create_warning signature changed (message / subtype / wtype)")
+        return
+    roles = _TagRoles(cw)
+
+    def verdict(key: str, st: tuple[str, str], s: str, okwhat: str, errwhat: str) -> None:
+        if st[0] == "ok":
+            rep.ok(R, key, s, okwhat)
+        elif st[0] == "bad":
+            rep.violation(R, key, s, st[1])
+        else:
+            rep.error(R, f"create_warning: {errwhat}: {st[1]}")
+
+    # the Sphinx logger call passes the type and subtype strings
     lw = [c for c in cw.local_nodes() if isinstance(c, ast.Call) and isinstance(c.func, ast.Attribute) and c.func.attr == "warning" and kwarg(c, "type") is not None]
-    ok = len(lw) == 1 and unparse(kwarg(lw[0], "type")) == "type_str" and kwarg(lw[0], "subtype") is not None and unparse(kwarg(lw[0], "subtype")) == "subtype_str"
-    (rep.ok if ok else rep.violation)("C14.R6", f"{cw.fq}|sphinx logger kwargs", site, *([] if ok else ["Sphinx logger call does not pass type=type_str, subtype=subtype_str"]))
-    # docutils branch emits message_with_type; Sphinx node too
+    if not lw:
+        untyped = [c for c in cw.local_nodes() if isinstance(c, ast.Call) and isinstance(c.func, ast.Attribute) and c.func.attr == "warning" and "logger" in unparse(c.func.value).lower()]
+        if len(untyped) == 1:
+            rep.violation(R, f"{cw.fq}|log record type", cw.module.site(untyped[0]), "the Sphinx log record carries no type=/subtype=: Sphinx can neither tag nor suppress it")
+            return
+    if len(lw) != 1:
+        rep.error(R, f"create_warning: expected one Sphinx logger call with type=, found {len(lw)}")
+        return
+    type_e, sub_e = kwarg(lw[0], "type"), kwarg(lw[0], "subtype")
+    verdict(f"{cw.fq}|log record type", roles.classify_type(type_e), cw.module.site(lw[0]), "type= is wtype, 'myst' when not given", "type= of the Sphinx log record not understood")
+    if sub_e is None:
+        rep.violation(R, f"{cw.fq}|log record subtype", cw.module.site(lw[0]), "the Sphinx log record carries no subtype=: it cannot be suppressed by type.subtype")
+    else:
+        verdict(f"{cw.fq}|log record subtype", roles.classify_sub(sub_e), cw.module.site(lw[0]), "subtype= is the str, or the enum member's .value", "subtype= of the Sphinx log record not understood")
+    # message nodes (docutils reporter, Sphinx system_message) carry "<message> [<type>.<subtype>]"
     uses = [c for c in cw.local_nodes() if isinstance(c, ast.Call) and (dotted(c.func) or "").endswith(("reporter.warning", "_create_warning_node"))]
-    ok = len(uses) >= 2 and all(c.args and unparse(c.args[0]) == "message_with_type" for c in uses)
-    (rep.ok if ok else rep.violation)("C14.R6", f"{cw.fq}|node text carries the tag", site, *([] if ok else ["a message node is built from the untagged message"]))
-    # the renderer wrapper forwards every argument under the same name
+    if len(uses) < 2:
+        rep.error(R, f"create_warning: expected the docutils reporter call and the Sphinx node builder, found {len(uses)}")
+        return
+    for c in uses:
+        k = f"{cw.fq}|node text carries the tag|{dotted(c.func)}"
+        s = cw.module.site(c)
+        parts = _tag_parts(roles, c.args[0] if c.args else None)
+        if parts is None:
+            rep.error(R, f"create_warning: message text of `{short(c, 50)}` is built in an idiom not understood")
+            continue
+        parts = _merge_text(parts)
+        holes = [p[1] for p in parts if isinstance(p, tuple)]
+        texts = [p for p in parts if isinstance(p, str)]
+        shape = ["v" if isinstance(p, tuple) else "t" for p in parts]
+        if len(holes) == 1 and _is_name(holes[0], "message") and not texts:
+            rep.violation(R, k, s, "a message node is built from the untagged message")
+        elif shape == ["v", "t", "v", "t", "v", "t"] and texts == [" [", ".", "]"] and _is_name(holes[0], "message"):
+            t_ok = roles.same(holes[1], type_e) or roles.classify_type(holes[1])[0] == "ok"
+            s_ok = roles.same(holes[2], sub_e) or roles.classify_sub(holes[2])[0] == "ok"
+            if t_ok and s_ok:
+                rep.ok(R, k, s, "'<message> [<type>.<subtype>]' with the strings of the log record")
+            elif (roles.same(holes[1], sub_e) and roles.same(holes[2], type_e)):
+                rep.violation(R, k, s, "message tag is [subtype.type], not [type.subtype]")
+            else:
+                bad = [x for x in (roles.classify_type(holes[1]), roles.classify_sub(holes[2])) if x[0] == "bad"]
+                if bad:
+                    rep.violation(R, k, s, "message tag differs from the log record's type/subtype: " + "; ".join(b[1] for b in bad))
+                else:
+                    rep.error(R, f"create_warning: cannot relate the tag of `{short(c, 50)}` to the log record's type/subtype")
+        else:
+            rep.violation(R, k, s, f"message tag is not '<message> [<type>.<subtype>]' (found {''.join(p if isinstance(p, str) else '{' + unparse(p[1]) + '}' for p in parts)!r})")
+    # the renderer wrapper forwards every argument to the parameter of the same name
     m = corpus.func("mdit_to_docutils.base:DocutilsRenderer.create_warning")
-    calls = [c for c in m.local_nodes() if isinstance(c, ast.Call) and dotted(c.func) == "create_warning"]
-    ok = len(calls) == 1 and [unparse(a) for a in calls[0].args] == ["self.document", "message", "subtype"] and all(k.arg == unparse(k.value) for k in calls[0].keywords) and {k.arg for k in calls[0].keywords} >= {"wtype", "line", "append_to"}
-    (rep.ok if ok else rep.violation)("C14.R6", f"{m.fq}|forwards arguments unchanged", m.site(), *([] if ok else ["the renderer wrapper does not forward (document, message, subtype, wtype=, line=, append_to=) unchanged"]))
+    calls = [c for c in m.local_nodes() if isinstance(c, ast.Call) and em_resolves_to(corpus, c, m, cw)]
+    km = f"{m.fq}|forwards arguments unchanged"
+    if len(calls) != 1 or any(isinstance(a, ast.Starred) for a in calls[0].args) or any(kw.arg is None for kw in calls[0].keywords):
+        rep.error(R, f"{m.qualname}: expected one plain call of create_warning, found {len(calls)}")
+        return
+    bound: dict[str, ast.expr] = {}
+    a = cw.node.args
+    pos = [x.arg for x in a.posonlyargs + a.args]
+    for i, arg in enumerate(calls[0].args):
+        if i < len(pos):
+            bound[pos[i]] = arg
+    for kw in calls[0].keywords:
+        bound[kw.arg] = kw.value  # type: ignore[index]
+    problems, unknown = [], []
+    if "document" not in bound or unparse(bound["document"]) != "self.document":
+        unknown.append(f"document= {unparse(bound['document']) if 'document' in bound else 'missing'}")
+    for p in m.params:
+        if p == "self":
+            continue
+        if p not in cw.params:
+            unknown.append(f"wrapper parameter {p} has no counterpart")
+        elif p not in bound:
+            problems.append(f"`{p}` is not forwarded: the caller's value is ignored")
+        elif not _is_name(bound[p], p):
+            other = bound[p]
+            if isinstance(other, ast.Name) and other.id in m.params:
+                problems.append(f"`{p}` receives the wrapper's `{other.id}`")
+            else:
+                unknown.append(f"{p}={short(other, 30)}")
+    for p in ("message", "subtype", "wtype", "line", "append_to"):
+        if p not in m.params:
+            unknown.append(f"wrapper lost its parameter {p}")
+    if problems:
+        rep.violation(R, km, m.site(), "the renderer wrapper does not forward its arguments unchanged: " + "; ".join(problems))
+    elif unknown:
+        rep.error(R, f"{m.qualname}: forwarding not understood: " + "; ".join(unknown))
+    else:
+        rep.ok(R, km, m.site())
+
+
+def em_resolves_to(corpus: Corpus, call: ast.Call, fi: FunctionInfo, target: FunctionInfo) -> bool:
+    g = get_callgraph(corpus)
+    try:
+        return any(getattr(t, "fq", None) == target.fq for t in g.flat_targets(g.resolve_call(call, fi)))
+    except Exception:
+        return dotted(call.func) == target.name
 
 
 RULES = [r1_typed_emission, r2_untyped_closed_list, r3_no_member_loses_last_site, r4_suppression_confined, r5_return_value_unused, r6_tag_format]
 
 
 def mutants(corpus: Corpus):
-    out = []
+    import copy
+
+    out: list = []
     base = corpus.mod("mdit_to_docutils.base")
     w = corpus.mod("warnings_")
+
+    def ind_of(mod, st: ast.stmt) -> str:
+        line = mod.lines[st.lineno - 1]
+        return line[: len(line) - len(line.lstrip())]
+
     # 1. a literal subtype under the myst type
     f = base.func("DocutilsRenderer.render_s")
     c = find_node(f, lambda n: isinstance(n, ast.Attribute) and unparse(n) == "MystWarnings.STRIKETHROUGH")
     if c is not None:
         out.append(Mutant("c14-literal-subtype", "C14.R1", base.rel, splice(base.src, c, '"strike"'), expect="render_s", canary=True))
         out.append(Mutant("c14-unknown-member", "C14.R1", base.rel, splice(base.src, c, "MystWarnings.STRIKE"), expect="render_s"))
-        out.append(Mutant("c14-last-site-lost", "C14.R3", base.rel, splice(base.src, c, "MystWarnings.NOT_SUPPORTED"), expect="STRIKETHROUGH", canary=True))
+        out.append(Mutant("c14-last-site-lost", "C14.R3", base.rel, splice(base.src, c, "MystWarnings.NOT_SUPPORTED"), expect="STRIKETHROUGH"))
+    else:
+        out.append(("c14-literal-subtype", "render_s no longer names MystWarnings.STRIKETHROUGH"))
     # 2. ParseWarnings constructed with a foreign tag
     d = corpus.mod("parsers.directives")
     f = d.func("_parse_directive_options")
     c = find_node(f, lambda n: isinstance(n, ast.Attribute) and unparse(n) == "MystWarnings.DIRECTIVE_OPTION_COMMENTS")
     if c is not None:
         out.append(Mutant("c14-parsewarnings-literal", "C14.R1", d.rel, splice(d.src, c, '"comments"'), expect="_warning.type"))
+    else:
+        out.append(("c14-parsewarnings-literal", "_parse_directive_options no longer names DIRECTIVE_OPTION_COMMENTS"))
+    # 2b. (seed class) a non-MyST tag loses its wtype: 'ref.footnote' becomes 'myst.footnote'
+    tr = corpus.mod("mdit_to_docutils.transforms")
+    f = tr.func("UnreferencedFootnotesDetector.apply")
+    c = find_node(f, lambda n: isinstance(n, ast.Call) and dotted(n.func) == "create_warning" and is_const(kwarg(n, "wtype"), "ref"))
+    if c is not None:
+        c2 = copy.deepcopy(c)
+        c2.keywords = [k for k in c2.keywords if k.arg != "wtype"]
+        out.append(Mutant("c14-ref-footnote-wtype-dropped", "C14.R1", tr.rel, splice(tr.src, c, ast.unparse(c2)), expect="UnreferencedFootnotesDetector.apply"))
+    else:
+        out.append(("c14-ref-footnote-wtype-dropped", "no create_warning(wtype='ref') in UnreferencedFootnotesDetector.apply"))
     # 3. an untyped reporter warning
     f = base.func("DocutilsRenderer.render_link_path")
     c = find_node(f, lambda n: isinstance(n, ast.Call) and unparse(n.func) == "self.create_warning")
     if c is not None:
         out.append(Mutant("c14-untyped-reporter-warning", "C14.R2", base.rel, splice(base.src, c, 'self.reporter.warning("`path:` scheme not yet supported in docutils", line=token_line(token, 0))'), expect="render_link_path", canary=True))
-    # 4. node built before the suppression test (docutils branch)
+    else:
+        out.append(("c14-untyped-reporter-warning", "render_link_path no longer calls self.create_warning"))
+    # 4. create_warning: node built before the suppression test / test on the wrong strings / suppressed branch with effects
     f = w.func("create_warning")
-    tests = [n for n in f.local_nodes() if isinstance(n, ast.If) and "_is_suppressed_warning" in unparse(n.test)]
+    tests = sorted([n for n in f.local_nodes() if isinstance(n, ast.If) and "_is_suppressed_warning" in unparse(n.test)], key=lambda n: n.lineno)
     if len(tests) == 2:
-        t = sorted(tests, key=lambda n: n.lineno)[1]
+        t0, t = tests
         out.append(Mutant("c14-docutils-test-dropped", "C14.R4", w.rel, splice(w.src, t.test, "False"), expect="create_warning", canary=True))
-        t0 = sorted(tests, key=lambda n: n.lineno)[0]
         call = [c for c in ast.walk(t0.test) if isinstance(c, ast.Call)][0]
         out.append(Mutant("c14-suppress-args-swapped", "C14.R4", w.rel, splice(w.src, call, f"_is_suppressed_warning({unparse(call.args[1])}, {unparse(call.args[0])}, {unparse(call.args[2])})"), expect="order"))
-    # 5. accepted forms: drop the '*' form
+        call = [c for c in ast.walk(t.test) if isinstance(c, ast.Call)][0]
+        out.append(Mutant("c14-suppress-test-on-raw-arguments", "C14.R4", w.rel, splice(w.src, call, f"_is_suppressed_warning(wtype, subtype, {unparse(call.args[2])})"), expect="arguments"))
+        ret = t.body[-1]
+        i = ind_of(w, ret)
+        out.append(Mutant("c14-suppressed-branch-still-attaches", "C14.R4", w.rel, splice(w.src, ret, f"if append_to is not None:\n{i}    append_to.append(nodes.comment('', message))\n{i}return None"), expect="create_warning"))
+    else:
+        out.append(("c14-docutils-test-dropped", f"create_warning has {len(tests)} suppression tests, expected 2"))
+    # 5. _is_suppressed_warning: accepted forms and the scan of the whole list
     f = w.func("_is_suppressed_warning")
+    p_list = f.params[2] if len(f.params) > 2 else None
     tup = find_node(f, lambda n: isinstance(n, ast.Tuple) and any(isinstance(e, ast.Constant) and e.value == "*" for e in n.elts))
     if tup is not None:
         out.append(Mutant("c14-star-form-dropped", "C14.R4", w.rel, splice(w.src, tup, "(None, subtype)"), expect="accepted forms"))
+    else:
+        out.append(("c14-star-form-dropped", "no tuple with '*' in _is_suppressed_warning"))
     sp = find_node(f, lambda n: isinstance(n, ast.Call) and isinstance(n.func, ast.Attribute) and n.func.attr == "split")
     if sp is not None:
         out.append(Mutant("c14-split-all-dots", "C14.R4", w.rel, splice(w.src, sp, f"{unparse(sp.func)}('.')"), expect="accepted forms"))
+        asg = parent(sp)
+        if isinstance(asg, ast.Assign) and isinstance(asg.targets[0], ast.Tuple) and len(asg.targets[0].elts) == 2:
+            a, b = asg.targets[0].elts
+            out.append(Mutant("c14-split-roles-swapped", "C14.R4", w.rel, splice(w.src, asg.targets[0], f"{unparse(b)}, {unparse(a)}"), expect="roles"))
+        else:
+            out.append(("c14-split-roles-swapped", "split result is not unpacked into a pair"))
+    else:
+        out.append(("c14-split-all-dots", "no split call in _is_suppressed_warning"))
+    dot = find_node(f, lambda n: isinstance(n, ast.Compare) and is_const(n.left, ".") and isinstance(n.ops[0], ast.In))
+    if dot is not None:
+        out.append(Mutant("c14-dot-guard-inverted", "C14.R4", w.rel, splice(w.src, dot, f"'.' not in {unparse(dot.comparators[0])}"), expect="bare type"))
+    else:
+        out.append(("c14-dot-guard-inverted", "no `'.' in entry` test"))
+    loop = find_node(f, lambda n: isinstance(n, ast.For) and p_list is not None and unparse(n.iter) == p_list)
+    ifst = None
+    if loop is not None:
+        ifst = find_node(f, lambda n: isinstance(n, ast.If) and any(x is loop for x in ancestors(n)) and len(n.body) == 1 and isinstance(n.body[0], ast.Return) and is_const(n.body[0].value, True) and isinstance(n.test, ast.BoolOp) and isinstance(n.test.op, ast.And) and len(n.test.values) == 2)
+        sentinel = find_node(f, lambda n: isinstance(n, ast.Assign) and isinstance(n.value, ast.Tuple) and len(n.value.elts) == 2 and is_const(n.value.elts[1], None) and any(x is loop for x in ancestors(n)))
+        out.append(Mutant("c14-first-entry-only", "C14.R4", w.rel, splice(w.src, loop.iter, f"{p_list}[:1]"), expect="loop range"))
+        if sentinel is not None:
+            out.append(Mutant("c14-bare-sentinel-not-accepted", "C14.R4", w.rel, splice(w.src, sentinel.value.elts[1], '""'), expect="bare type"))
+        else:
+            out.append(("c14-bare-sentinel-not-accepted", "no `(entry, None)` assignment in the loop"))
+    else:
+        out.append(("c14-first-entry-only", "no `for entry in <suppress list>` loop in _is_suppressed_warning"))
+    if ifst is not None:
+        i = ind_of(w, ifst)
+        seg = ast.get_source_segment(w.src, ifst)
+        ty, su = unparse(ifst.test.values[0]), unparse(ifst.test.values[1])
+        # the seeded defect: the first entry of the right type decides
+        out.append(Mutant("c14-first-type-match-decides", "C14.R4", w.rel, splice(w.src, ifst, f"if not ({ty}):\n{i}    continue\n{i}return {su}"), expect="every entry consulted", canary=True))
+        out.append(Mutant("c14-else-return-false-in-loop", "C14.R4", w.rel, splice(w.src, ifst, f"{seg}\n{i}else:\n{i}    return False"), expect="every entry consulted"))
+        out.append(Mutant("c14-break-after-type-match", "C14.R4", w.rel, splice(w.src, ifst, f"{seg}\n{i}if {ty}:\n{i}    break"), expect="every entry consulted|break"))
+        out.append(Mutant("c14-star-suppresses-any-type", "C14.R4", w.rel, splice(w.src, ifst, f"{seg}\n{i}if {unparse(ifst.test.values[1].left)} == '*':\n{i}    return True"), expect="accepted forms|type"))
+    else:
+        out.append(("c14-first-type-match-decides", "no `if <type test> and <sub-target test>: return True` in the loop"))
     # 6. behaviour depending on the return value
     f = base.func("DocutilsRenderer.render_s")
     st = find_node(f, lambda n: isinstance(n, ast.Expr) and isinstance(n.value, ast.Call) and unparse(n.value.func) == "self.create_warning")
     if st is not None:
         seg = ast.get_source_segment(base.src, st)
         out.append(Mutant("c14-branch-on-result", "C14.R5", base.rel, splice(base.src, st, "if " + seg + " is None:\n            return"), expect="render_s", canary=True))
+    else:
+        out.append(("c14-branch-on-result", "render_s no longer discards a create_warning call"))
+    # 6b. (seed class) the optional-list idiom loses its parentheses: the fallback depends on the warning
+    h = corpus.mod("mdit_to_docutils.html_to_nodes")
+    f = h.func("html_to_nodes")
+    bo = find_node(f, lambda n: isinstance(n, ast.BinOp) and isinstance(n.op, ast.Add) and isinstance(n.left, ast.IfExp) and isinstance(n.left.orelse, ast.List) and not n.left.orelse.elts)
+    if bo is not None:
+        ie = bo.left
+        out.append(Mutant("c14-fallback-depends-on-result", "C14.R5", h.rel, splice(h.src, bo, f"{unparse(ie.body)} if {unparse(ie.test)} else [] + {ast.get_source_segment(h.src, bo.right)}"), expect="html_to_nodes"))
+    else:
+        out.append(("c14-fallback-depends-on-result", "html_to_nodes has no `([x] if x else []) + ...`"))
+    bo = None
+    for f in base.functions.values():
+        bo = find_node(f, lambda n: isinstance(n, ast.BinOp) and isinstance(n.op, ast.Add) and isinstance(n.left, ast.IfExp) and isinstance(n.left.orelse, ast.List) and not n.left.orelse.elts and isinstance(n.left.test, ast.Name))
+        if bo is not None:
+            ie = bo.left
+            out.append(Mutant("c14-other-messages-lost-when-suppressed", "C14.R5", base.rel, splice(base.src, bo, f"{unparse(ie.body)} + {unparse(bo.right)} if {unparse(ie.test)} else []"), expect=f.qualname))
+            break
+    if bo is None:
+        out.append(("c14-other-messages-lost-when-suppressed", "no `([x] if x else []) + ...` in base.py"))
     # 7. suppress list read elsewhere
     f = base.func("DocutilsRenderer.render_hr")
     out.append(Mutant("c14-suppress-list-read-in-renderer", "C14.R4", base.rel, splice(base.src, f.node.body[0], "if 'myst.hr' in self.md_config.suppress_warnings:\n            return\n        " + ast.get_source_segment(base.src, f.node.body[0])), expect="render_hr"))
-    # 8. .name instead of .value in log_warning
+    # 8. .name instead of .value in log_warning / in create_warning
     r = corpus.mod("sphinx_ext.myst_refs")
     f = r.func("MystReferenceResolver.log_warning")
     c = find_node(f, lambda n: isinstance(n, ast.Attribute) and unparse(n) == "subtype.value")
     if c is not None:
         out.append(Mutant("c14-enum-name-not-value", "C14.R1", r.rel, splice(r.src, c, "subtype.name"), expect="log_warning"))
-    # 9. tag format
+    else:
+        out.append(("c14-enum-name-not-value", "log_warning no longer reads subtype.value"))
     f = w.func("create_warning")
-    js = find_node(f, lambda n: isinstance(n, ast.JoinedStr) and "type_str" in unparse(n))
+    c = find_node(f, lambda n: isinstance(n, ast.Attribute) and unparse(n) == "subtype.value")
+    if c is not None:
+        out.append(Mutant("c14-enum-name-in-create-warning", "C14.R6", w.rel, splice(w.src, c, "subtype.name"), expect="log record subtype"))
+    else:
+        out.append(("c14-enum-name-in-create-warning", "create_warning no longer reads subtype.value"))
+    c = find_node(f, lambda n: isinstance(n, ast.Constant) and n.value == "myst" and not isinstance(parent(n), ast.Expr))
+    if c is not None:
+        out.append(Mutant("c14-default-type-changed", "C14.R6", w.rel, splice(w.src, c, '"MyST"'), expect="log record type"))
+    else:
+        out.append(("c14-default-type-changed", "no 'myst' literal in create_warning"))
+    # 9. tag format / untagged node
+    js = find_node(f, lambda n: isinstance(n, ast.JoinedStr) and len([v for v in n.values if isinstance(v, ast.FormattedValue)]) == 3)
     if js is not None:
-        out.append(Mutant("c14-tag-format", "C14.R6", w.rel, splice(w.src, js, 'f"{message} [{subtype_str}]"'), expect="message_with_type"))
+        fv = [v for v in js.values if isinstance(v, ast.FormattedValue)]
+        out.append(Mutant("c14-tag-format", "C14.R6", w.rel, splice(w.src, js, 'f"{' + unparse(fv[0].value) + "} [{" + unparse(fv[2].value) + '}]"'), expect="node text carries the tag"))
+    else:
+        out.append(("c14-tag-format", "no f-string with three holes in create_warning"))
+    c = find_node(f, lambda n: isinstance(n, ast.Call) and dotted(n.func) == "_create_warning_node" and n.args)
+    if c is not None:
+        out.append(Mutant("c14-sphinx-node-untagged", "C14.R6", w.rel, splice(w.src, c.args[0], "message"), expect="node text carries the tag"))
+    else:
+        out.append(("c14-sphinx-node-untagged", "create_warning no longer calls _create_warning_node"))
+    # 10. the renderer wrapper stops forwarding wtype
+    f = base.func("DocutilsRenderer.create_warning")
+    c = find_node(f, lambda n: isinstance(n, ast.Call) and dotted(n.func) == "create_warning" and kwarg(n, "wtype") is not None)
+    if c is not None:
+        c2 = copy.deepcopy(c)
+        c2.keywords = [k for k in c2.keywords if k.arg != "wtype"]
+        out.append(Mutant("c14-wrapper-drops-wtype", "C14.R6", base.rel, splice(base.src, c, ast.unparse(c2)), expect="forwards arguments"))
+    else:
+        out.append(("c14-wrapper-drops-wtype", "the renderer wrapper has no wtype= keyword"))
     return out
